@@ -10,6 +10,19 @@ J = "sqlgrep::execution::join::"
 V = "sqlgrep::model::Value"
 
 
+def _explicit_error_return(f, c):
+    """`match lookup() { Some(x) => x, None => return Err(..) }`: on the failure edge of the call's result every path builds an Err"""
+    errb = set(i for i, st in f.stmts() if st["k"] == "assign" and st["rv"]["k"] == "aggr" and st["rv"].get("variant") == "Err"
+               and (st["rv"].get("adt") or "").endswith("result::Result"))
+    if not errb:
+        return False
+    for fail, good_ in (("None", "Some"), ("Err", "Ok")):
+        g = PR.discr_guard(f, c, good_)
+        if g and g[2]:
+            return all(PR.all_paths_hit(f, nt, errb)[0] for nt in g[2])
+    return False
+
+
 def E_owner(P, f):
     while f.kind == "Closure" and f.parent_key in P.fns:
         f = P.fns[f.parent_key]
@@ -58,6 +71,8 @@ def run(R):
             g = PR.discr_guard(jf, t, "Break")
             if g and any(short(x.name).endswith("::from_residual") for x in jf.calls if x.bb in jf.reachable_from(g[1])):
                 ok = True
+        if not ok:
+            ok = _explicit_error_return(jf, c)
         swallow = [x for x in jf.calls if re.search(r"Result::(ok|unwrap_or|unwrap_or_default|unwrap_or_else)$|Option::(unwrap_or|unwrap_or_default|unwrap_or_else)$", short(x.name))
                    and any(o.kind == "call" and o.call is c for o in F.origins(jf, x.args[0], depth=6))]
         if ok and not swallow:
@@ -121,7 +136,7 @@ def run(R):
     else:
         good, badb = PR.all_paths_hit(gj, 0, [ix[0].bb])
         tb = [t for t in PR.calls_matching(gj, r"Try>::branch$") if any(o.kind == "call" and o.call is ix[0] for o in F.origins(gj, t.args[0], depth=8))]
-        if good and tb:
+        if good and (tb or _explicit_error_return(gj, ix[0])):
             R.ok("C05.err", "get_joined_row|index_for", "column resolved and `?`-propagated on every path", ix[0].loc())
         else:
             R.violation("C05.err", "get_joined_row|index_for|bypassed",
@@ -185,6 +200,23 @@ def run(R):
             r1 = count_range(ej, g[1], {hdr}, {ex[0].bb})
             r2 = count_range(ej, g[1], {hdr}, {mg[0].bb})
             okc = r1 == (1, 1) and r2 == (1, 1)
+        if not okc and len(ex) == 1:
+            # the merge spelled out in the loop: on the path where the pair produced a row, that row is put into the accumulator exactly
+            # once (`acc = Some(result)` or `acc.data.extend(result.data)`), on the path where it produced none, nothing is merged
+            byval = [c for c in mg if any(a_.get("k") in ("copy", "move") and not (a_.get("ty") or "").startswith("&") and
+                                          any(o.kind == "call" and o.call is ex[0] for o in F.origins(ej, a_, depth=10)) for a_ in c.args)]
+            M = set(c.bb for c in byval)
+            for i_, st_ in ej.stmts():
+                if i_ in body and st_["k"] == "assign" and st_["rv"]["k"] == "aggr" and st_["rv"].get("variant") == "Some" and st_["rv"]["ops"] and \
+                        "ResultRow" in (st_["rv"]["ops"][0].get("ty") or "") and \
+                        any(o.kind == "call" and o.call is ex[0] for o in F.origins(ej, st_["rv"]["ops"][0], depth=10)):
+                    M.add(i_)
+            sg = PR.discr_guard(ej, ex[0], "Some")
+            if M and sg and sg[2]:
+                r1 = count_range(ej, g[1], {hdr}, {ex[0].bb})
+                r_some = count_range(ej, sg[1], {hdr}, M)
+                r_none = [count_range(ej, nt_, {hdr}, M) for nt_ in sg[2] if nt_ in body]
+                okc = r1 == (1, 1) and r_some == (1, 1) and all(r_ == (0, 0) for r_ in r_none)
         # leaving the loop from inside the body other than through the iterator end: only error returns
         leaves = set()
         for x in body:
